@@ -280,6 +280,21 @@ func cliExit(r *Run) {
 	case "missing-index":
 		w.Disk.Remove(w.Index)
 	}
+	if !par1Set && !indexBadState(state) && t.Bool(1, 4, "backup-copy") {
+		// a backup copy of a recovery file beside the set: the same
+		// blocks stored twice do not change what is needed or possible
+		for _, p := range recPaths {
+			if b, ok := w.Disk.Get(p); ok {
+				dst := strings.TrimSuffix(p, ".par2") + " (1).par2"
+				w.Disk.Put(dst, b)
+				r.Logf("state: backup copy of %s", filepath.Base(p))
+				r.Probe("duplicated-recovery-file")
+				if t.Bool(1, 2, "one-copy") {
+					break
+				}
+			}
+		}
+	}
 	rw.Sync()
 
 	// reference expectation
@@ -380,3 +395,5 @@ func lastLines2(s string, n int) string {
 	}
 	return strings.Join(lines, " | ")
 }
+
+func indexBadState(state string) bool { return state == "damaged-index" || state == "missing-index" }
